@@ -18,3 +18,4 @@ pub mod gen;
 pub mod lex;
 pub mod parse;
 pub mod props;
+pub mod tokcmp;
